@@ -1018,27 +1018,75 @@ fn cli_cases() -> Vec<(Option<String>, Option<String>, bool)> {
     ]
 }
 
+/// "`-o` together with `--format` are rejected": every explicit, by itself VALID `-o` value (the
+/// default mode `legacy` included: an explicit `-o legacy` is not an absent `-o`) with the deprecated
+/// flag in each of its spellings (`--format`, `-m`), in either order, attached or detached.
+/// All of them are rejected at once by the unchanged tool, so none costs the silent-stdin wait.
+fn cli_both_cases() -> Vec<(Option<String>, Option<String>, bool, &'static str)> {
+    let s = |x: &str| Some(x.to_string());
+    let mut v = vec![];
+    for o in ["legacy", "json", "logfmt", "format={a}", "format={a} {b}", "legacy=", "json=", "logfmt=x"] {
+        for sp in ["-o/--format", "-o/-m"] {
+            v.push((s(o), s("{a}-{b}"), true, sp));
+        }
+    }
+    // the other spellings and orders, for the default mode and one other
+    for o in ["legacy", "json"] {
+        for sp in ["--output/--format", "--output=/--format=", "-oV/-mV", "--format/-o", "-m/--output", "-o/--format/trailing-query"] {
+            v.push((s(o), s("{a}-{b}"), true, sp));
+        }
+    }
+    // a format string that is a plain word / the mode's own name / empty
+    for f in ["plain", "legacy", ""] {
+        v.push((s("legacy"), s(f), true, "-o/--format"));
+        v.push((s("legacy"), s(f), true, "-o/-m"));
+    }
+    v
+}
+
+/// the command line of a cli case; `spelling` "" = `QUERY -o O --format F`
+fn cli_args(o: &Option<String>, f: &Option<String>, spelling: &str) -> Vec<String> {
+    let q = "* | json".to_string();
+    let (ov, fv) = (o.clone().unwrap_or_default(), f.clone().unwrap_or_default());
+    let sv = |v: &[&str]| v.iter().map(|s| s.to_string()).collect::<Vec<String>>();
+    match spelling {
+        "-o/-m" => sv(&[&q, "-o", &ov, "-m", &fv]),
+        "--output/--format" => sv(&[&q, "--output", &ov, "--format", &fv]),
+        "--output=/--format=" => sv(&[&q, &format!("--output={}", ov), &format!("--format={}", fv)]),
+        "-oV/-mV" => sv(&[&q, &format!("-o{}", ov), &format!("-m{}", fv)]),
+        "--format/-o" => sv(&[&q, "--format", &fv, "-o", &ov]),
+        "-m/--output" => sv(&["-m", &fv, "--output", &ov, &q]),
+        "-o/--format/trailing-query" => sv(&["-o", &ov, "--format", &fv, &q]),
+        _ => {
+            let mut args = vec![q];
+            if let Some(o) = o {
+                args.push("-o".into());
+                args.push(o.clone());
+            }
+            if let Some(f) = f {
+                args.push("--format".into());
+                args.push(f.clone());
+            }
+            args
+        }
+    }
+}
+
 fn fam_cli(ctx: &mut Ctx) {
     if !super::c04::ensure_binary() {
         ctx.case("cli", "", "skip", serde_json::json!({"why": "agrind binary could not be built"}));
         return;
     }
-    let cases = cli_cases();
-    for (i, (o, f, must_reject)) in cases.iter().enumerate() {
+    // (−o, −−format, must be rejected, spelling of the command line)
+    let mut cases: Vec<(Option<String>, Option<String>, bool, &'static str)> = cli_cases().into_iter().map(|(o, f, r)| (o, f, r, "")).collect();
+    cases.extend(cli_both_cases());
+    for (i, (o, f, must_reject, spelling)) in cases.iter().enumerate() {
         if i % ctx.nshards != ctx.shard {
             continue;
         }
         let model = ctx.drv.ask(&format!("CLI\t{}\t{}", opt_tok(o), opt_tok(f)));
-        let mut args: Vec<String> = vec!["* | json".into()];
-        if let Some(o) = o {
-            args.push("-o".into());
-            args.push(o.clone());
-        }
-        if let Some(f) = f {
-            args.push("--format".into());
-            args.push(f.clone());
-        }
-        let key = format!("{:?}/{:?}", o, f);
+        let args = cli_args(o, f, spelling);
+        let key = if spelling.is_empty() { format!("{:?}/{:?}", o, f) } else { format!("{:?}/{:?}/{}", o, f, spelling) };
         let run = match run_binary_silent_stdin(&args, 1500) {
             Some(r) => r,
             None => {
@@ -1047,7 +1095,7 @@ fn fam_cli(ctx: &mut Ctx) {
             }
         };
         let rejected = matches!(run.exited_early, Some(c) if c != 0);
-        let info = serde_json::json!({"o": o, "format": f, "model": model, "exit_while_stdin_silent": run.exited_early, "exit_after_eof": run.after_close,
+        let info = serde_json::json!({"o": o, "format": f, "args": args, "model": model, "exit_while_stdin_silent": run.exited_early, "exit_after_eof": run.after_close,
             "stderr": String::from_utf8_lossy(&run.stderr).chars().take(160).collect::<String>(), "stdout": String::from_utf8_lossy(&run.stdout).chars().take(80).collect::<String>()});
         // P-level: what the property lists must be rejected before any input is read, silently on stdout
         if *must_reject && (!rejected || !run.stdout.is_empty()) {
